@@ -5,6 +5,9 @@ subroutines + structural postcondition (icontract) on Flavour.__init__.
 """
 from __future__ import annotations
 
+import copy
+import json
+
 from vf.harness import codec
 from vf.ref import isa
 
@@ -102,8 +105,18 @@ def cases(ctx):
         for _ in range(ln):
             m = rng.choice(names)
             ins.append([m, codec.rand_values(rng, isa.TABLE[flav][m][1])])
+        share = False
+        if ln >= 3 and rng.random() < 0.2:
+            # a program that repeats an instruction, built with ONE object listed at both positions, and a branch to the first of them
+            i_, j_ = sorted(rng.sample(range(ln), 2))
+            ins[j_] = copy.deepcopy(ins[i_])
+            br = rng.choice(["jmp", "bez", "beq"])
+            vals = codec.rand_values(rng, isa.TABLE[flav][br][1])
+            vals[-1] = i_
+            ins.insert(rng.randrange(ln + 1), [br, vals])
+            share = True
         yield {"kind": "single", "flavour": flav, "version": [rng.randrange(256), rng.randrange(256)],
-               "app_id": rng.choice([0, 1, 255, 256, 65535, rng.randrange(65536)]), "instrs": ins}
+               "app_id": rng.choice([0, 1, 255, 256, 65535, rng.randrange(65536)]), "instrs": ins, "share": share}
 
 
 def _roundtrip(ctx, case, flav, version, app_id, instrs, fobj=None, mutate=None):
@@ -112,6 +125,15 @@ def _roundtrip(ctx, case, flav, version, app_id, instrs, fobj=None, mutate=None)
     from netqasm.lang.subroutine import Subroutine
     fobj = fobj or codec.flavour_obj(flav)
     objs = [codec.mk_instr(fobj, flav, m, v) for m, v in instrs]
+    if case.get("share"):
+        first = {}
+        for i_, (m, v) in enumerate(instrs):
+            key = json.dumps([m, v])
+            if key in first:
+                objs[i_] = objs[first[key]]      # the very same object at both positions
+                ctx.count("instruction_objects_listed_twice")
+            else:
+                first[key] = i_
     sub = Subroutine(netqasm_version=tuple(version), app_id=app_id, instructions=objs)
     raw = bytes(sub)
     ctx.count("roundtrips")
@@ -161,7 +183,9 @@ def _roundtrip(ctx, case, flav, version, app_id, instrs, fobj=None, mutate=None)
         nv_ = codec.rand_values(ctx.rng, isa.TABLE[flav][m_][1])
         codec.edit_in_place(sub.instructions[k_], codec.mk_instr(fobj, flav, m_, nv_))
         want_ = [[m, v] for m, v in instrs]
-        want_[k_] = [m_, nv_]
+        for i_ in range(len(objs)):
+            if objs[i_] is objs[k_]:          # (an object listed twice shows the edit at both positions)
+                want_[i_] = [m_, nv_]
         ctx.count("reencode_after_operand_edit")
         got_ = [codec.describe_instr(i) for i in deserialize(bytes(sub), flavour=fobj).instructions]
         if got_ != want_:
